@@ -2,6 +2,7 @@
 (a) BatchPartitioner::partition_iter (hash / round robin / range) against the model, output for output;
 (b) RepartitionExec end to end against the model's per-(input, output) routed streams."""
 import json
+import os
 import vlib
 from vlib import Check, zlit, coq_bool
 
@@ -51,9 +52,17 @@ def render(c):
     return "CExch %s %s %s %s %s" % (r_scheme(c["scheme"]), coq_bool(c["preserve"]), coq_bool(c["ordered"]), ins, obs)
 
 
+KF_HANG = "C10-hang-shared-spill-pool"
+
+
 def fail_key(c):
     """stable key of the input class a finding would be listed under"""
     k = c["k"]
+    if (k == "exch" and c.get("why", "").startswith("hang") and not c.get("preserve") and c.get("mem") is not None
+            and c.get("m", 0) >= 2 and c.get("workers", 0) >= 2 and c.get("spills", 0) > 0):
+        # non-preserve-order, several inputs, memory-limited (batches really spilled), more than one worker thread:
+        # the shared multi-producer spill pool can hold a spilled batch in a second open file that the reader cannot reach
+        return KF_HANG
     if k == "exch":
         return "exch/%s/preserve=%s/mem=%s/drops=%s: %s" % (c.get("scheme", {}).get("t"), c.get("preserve"),
                                                           "limited" if c.get("mem") is not None else "none",
@@ -77,7 +86,8 @@ def run(pid, tier, seed, replay):
         except Exception:
             pass
     ck = Check(pid, tier, seed, level="proof")
-    n = 300 if tier == "quick" else 6000
+    n = 100 if tier == "quick" else 2500
+    n = int(os.environ.get("C10_N", n))          # development / mutation testing only
     ck.proof_step(extra_targets=["Model/Repartition.vo"])
     ok, out, dt = vlib.cargo_build("h_physplan", bin="c10")
     ck.log("cargo build: ok=%s (%.0fs)" % (ok, dt))
@@ -134,7 +144,9 @@ def run(pid, tier, seed, replay):
                 "robin: n 1..9, (input_partition, num_input_partitions) with m 1..7, 0..13 batches incl. empty ones. (b) 1-4 inputs x 0-5 "
                 "batches (0..30 rows, empty batches) x hash/round-robin/range x 1..8 outputs x preserve_order (sorted inputs) x batch_size "
                 "{1,2,3,5,16,8192} x memory pool {none,1,300,1500,6000 bytes} x per-output early drop after 0..2 batches x tokio workers "
-                "{1,2,4}, every configuration run 2-3 times. non-trivial = rows landed in >= 2 partitions (a) / round robin wrapped around / "
+                "{1,2,4}, every configuration run 2-3 times; one configuration in three is drop-heavy (2-4 inputs x 8-20 small batches, batch_size 1..4, "
+                "2..5 outputs of which at least one hangs up after 1-2 batches while at least one is read to the end). First 3 runs: the fixed witness "
+                "of known finding KF-C10-1. non-trivial = rows landed in >= 2 partitions (a) / round robin wrapped around / "
                 "(b) >= 2 outputs, >= 2 rows read, at least one output read to the end; counted by distinct input+configuration",
         "by_kind": {k: len(v) for k, v in sorted(by.items())},
         "exchange": {
@@ -145,6 +157,7 @@ def run(pid, tier, seed, replay):
             "with_early_drop": cnt(lambda c: any(d is not None for d in c.get("drops", []))),
             "tolerated_resource_errors": cnt(lambda c: c.get("errs", 0) > 0 and c["ok"]),
             "multi_input_unordered": cnt(lambda c: not c.get("ordered", True)),
+            "hangs_known_finding": cnt(lambda c: not c["ok"] and fail_key(c) == KF_HANG),
         },
         "traces_validated_against_impl": len(good),
         "samples": [slim(by[k][0]) for k in ("hash", "range", "rr") if k in by] + ([{kk: vv for kk, vv in ex[0].items() if kk != "inputs"}] if ex else []),
